@@ -165,7 +165,30 @@ def num_imp(val):
     return (fnum(val), 'num')
 
 
+def extra_kw_tokens(items):
+    toks = []
+    for item in items:
+        key, _, val = item.partition('=')
+        if ':' in key:
+            k1, _, k2 = key.partition(':')
+            toks.append(T(kw(k1), raw(':'), kw(k2), raw('='), (val, 'num')))
+        else:
+            toks.append(T(kw(key), raw('='), (val, 'num')))
+    return toks
+
+
 def cell_option_tokens(c, skip=()):
+    toks = []
+    # cell parameters that do not concern the geometry (TMP, VOL, NONU, ...):
+    # c['extra_kw'] = (list written before IMP, list written last)
+    extra = c.get('extra_kw') or ((), ())
+    toks += extra_kw_tokens(extra[0])
+    toks += _cell_option_tokens(c, skip)
+    toks += extra_kw_tokens(extra[1])
+    return toks
+
+
+def _cell_option_tokens(c, skip=()):
     toks = []
     if c.get('imp') and 'imp' not in skip:
         toks += imp_tokens(c.get('imp_groups') or c['imp'])
